@@ -94,6 +94,55 @@ def _image_lengths(dump):
     return (len(t) - 3) // 2, (len(l) - 3) // 2
 
 
+# ---- C12 ------------------------------------------------------------------------------------------------------
+def extra_C12(tier, seed, scratch, cfg, out):
+    """a restart after a crash is a restart too: for every cut of the write log of histories that create webentities, the
+    reopened index (when it opens) must give the next creation an id greater than every id attached to a prefix in it"""
+    from .impl import FULL_LOG
+    hits = []
+    nhist = 4 if tier == "quick" else 40
+    cuts_done = 0
+    for i in range(nhist):
+        r = random.Random(seed * 7907 + 12000 + i)
+        prof = {"g1": 1.0, "read_rate": 0.0, "init_rules": 0.5, "poke_ids": 0.0,
+                "w": {"reopen": 0, "clear": 0, "create": 6, "addpage": 5, "addlinks": 2, "batch": 2, "delete": 1, "chain": 0, "cobatch": 0,
+                      "deleteu": 0, "addruleram": 0, "nestedrules": 0.5, "addprefix": 0, "moveprefix": 0, "rmprefix": 0.5}}     # no caller-chosen ids
+        im = Impl(scratch)
+        try:
+            ses = Session(im, r, prof, cfg=cfg)
+            ses.run(5 if tier == "quick" else 9)
+            nlog = len(FULL_LOG)
+            ks = list(range(1, nlog + 1))
+            if len(ks) > (60 if tier == "quick" else 400):
+                ks = sorted(r.sample(ks, 60 if tier == "quick" else 400))
+            fresh = hx(b"s:http|h:org|h:freshsite|")
+            for k in ks:
+                if im.exec("cut %d 0" % k)[0] != "ok":
+                    continue
+                cuts_done += 1
+                pre = im.exec("? prefixiter")[0]
+                ids = [int(x.rsplit(":", 1)[1]) for x in _items(pre)] if pre.startswith("ok") else []
+                ans = im.exec("create [%s]" % fresh)[0]
+                new = None
+                if ans.startswith("ok pages=") and "we={" in ans:
+                    head = ans.split("we={", 1)[1].split(":", 1)[0]
+                    new = int(head) if head.isdigit() else None
+                im.exec("uncut")
+                if new is not None and ids and new <= max(ids):
+                    hits.append({"kind": "ids-after-crash", "lines": list(ses.lines), "cut": [k, 0],
+                                 "finding": {"reason": "after a crash cut and a reopening a creation received an id that is not greater than "
+                                                       "an id attached in the reopened index", "new_id": new, "attached_max": max(ids)}})
+                    break
+        finally:
+            if im.t is not None:
+                im._uncut()
+            im.close()
+        if hits:
+            break
+    out.extra["C12"] = {"crash_cuts_followed_by_a_creation": cuts_done}
+    return hits[:1]
+
+
 # ---- C14 ------------------------------------------------------------------------------------------------------
 def extra_C14(tier, seed, scratch, cfg, out):
     hits = []
